@@ -1771,6 +1771,11 @@ def _get_slice_With_AsyncWith_items(
 
             self._fix_joined_alnums(ln, col)
 
+    if cut:
+        from .fst_put_one import _fix_With_items  # here because of circular import
+
+        _fix_With_items(self)  # if we wound up with a tuple as the only item then need to parenthesize it, same as after a delete
+
     return fst_
 
 
